@@ -339,6 +339,95 @@ fn tail(b: &[u8]) -> String {
 }
 
 // ---------------------------------------------------------------------------------------------
+// systematic small-scope schedules: every sequence of <= N atomic steps over a fixed alphabet
+
+fn atom(i: usize, k: &mut usize, replies: &mut Vec<(String, ReplySpec)>) -> Step {
+    let mut issue = |caller: u8, list: bool, replies: &mut Vec<(String, ReplySpec)>| {
+        let n = *k;
+        *k += 1;
+        let ok = |t: &str| (t.to_string(), ReplySpec::Ok { fields: vec![("v".into(), t.to_string())], binary: None });
+        if list {
+            let toks = vec![format!("r{n}x0"), format!("r{n}x1"), format!("r{n}x2")];
+            replies.push(ok(&toks[0]));
+            replies.push((toks[1].clone(), ReplySpec::Ack { code: 50, message: "nope".into(), partial: vec![("p".into(), "q".into())] }));
+            replies.push(ok(&toks[2]));
+            Step::Issue { caller, req: Req::RawList(toks) }
+        } else {
+            let t = format!("r{n}x0");
+            replies.push(ok(&t));
+            Step::Issue { caller, req: Req::Raw(t) }
+        }
+    };
+    match i {
+        0 => issue(0, false, replies),
+        1 => issue(1, false, replies),
+        2 => issue(0, true, replies),
+        3 => Step::Change(vec!["player".into()]),
+        4 => Step::Change(vec!["mixer".into(), "zz_new".into()]),
+        5 => Step::Advance(99),
+        6 => Step::Advance(101),
+        7 => Step::Hold,
+        8 => Step::Release(16),
+        9 => Step::ReleaseAll,
+        10 => {
+            let a = issue(1, false, replies);
+            Step::Together(vec![a, Step::Change(vec!["options".into()])])
+        }
+        11 => {
+            let a = issue(0, false, replies);
+            let b = issue(1, false, replies);
+            Step::Together(vec![a, b])
+        }
+        _ => Step::Cancel(0),
+    }
+}
+
+pub const ATOMS: usize = 13;
+
+/// All sequences of 1..=max_len atoms x `seeds` select! seeds x {whole, lines} segmentation.
+pub fn systematic_scripts(max_len: usize, seeds: u64) -> impl Iterator<Item = Script> {
+    let mut total = 0usize;
+    let mut pow = 1usize;
+    for _ in 1..=max_len {
+        pow *= ATOMS;
+        total += pow;
+    }
+    (0..total).flat_map(move |mut idx| {
+        let mut len = 1;
+        let mut block = ATOMS;
+        while idx >= block {
+            idx -= block;
+            block *= ATOMS;
+            len += 1;
+        }
+        let mut digits = Vec::with_capacity(len);
+        for _ in 0..len {
+            digits.push(idx % ATOMS);
+            idx /= ATOMS;
+        }
+        (0..seeds).flat_map(move |seed| {
+            let digits = digits.clone();
+            [sim::SegPattern::Whole, sim::SegPattern::Lines].into_iter().map(move |seg| {
+                let mut replies = Vec::new();
+                let mut k = 0;
+                let steps = digits.iter().map(|d| atom(*d, &mut k, &mut replies)).collect();
+                Script { sched_seed: seed + 1, seg, replies, steps, max_write: None, picture: None, broken_pipe: true }
+            })
+        })
+    })
+}
+
+pub fn systematic_part(judge: fn(&Script, &Observation) -> CaseResult) -> Box<dyn crate::core::Part> {
+    Box::new(crate::core::ExhaustivePart {
+        name: "systematic_schedules",
+        rule: "EVERY sequence of 1-3 (thorough: 1-4) steps over 13 atoms {request by caller 0, request by caller 1, 3-command list failing at its 2nd command after partial output, change [player], change [mixer, zz_new], advance 99 ms, advance 101 ms, hold, release 16 bytes, release all, request+change becoming ready together, two requests together, cancel request 0} x 2 (thorough 4) select! seeds x {whole, per-line} segmentation; same judge as the random part; non-trivial by the same rule",
+        space: Box::new(|t: Tier| Box::new(systematic_scripts(t.pick(3, 4), t.pick(2, 4)))),
+        check: Box::new(move |s: &Script| {
+            let obs = sim::run(s);
+            judge(s, &obs)
+        }),
+    })
+}
 
 pub fn c01(_tier: Tier) -> Property {
     Property {
@@ -347,13 +436,13 @@ pub fn c01(_tier: Tier) -> Property {
         parts: vec![Box::new(RandomPart {
             name: "histories",
             rule: "proptest: script of 1-24 steps/blocks over 1-4 callers: Issue (raw command, raw list 1-5, typed probe, typed tuple arity 1-8, typed Vec; reply table per token: 0-3 fields, optional payload up to 9 KB incl. protocol look-alikes, or ACK at any list position), Change, Advance {0,1,50,99,100,101,150,250} ms, Hold/Release(n)/ReleaseAll (reply bytes withheld and handed out in pieces), Cancel, race blocks (idle reply in flight around an Issue); segmentation pattern whole/lines/one-byte/chunks; optional partial writes; select! seeded per case. Every non-cancelled request must resolve to exactly the reply-table entry of its own tokens; per-caller arrival order on the server transcript. non-trivial = >=2 requests pending at once, noidle crossing an idle reply, a request inside the 100 ms window, a list failing part-way, an idle reply split across reads, or a cancellation next to other requests; distinct by serialised script",
-            cases: (30_000, 3_000_000),
+            cases: (60_000, 3_000_000),
             strategy: Box::new(|_t| simgen::script(2, 2, 24).boxed()),
             check: Box::new(|s: &Script| {
                 let obs = sim::run(s);
                 judge_c01(s, &obs)
             }),
-        })],
+        }), systematic_part(judge_c01)],
         assumptions: vec![
             "schedules are those of a current-thread tokio runtime with a paused clock and seeded select! (tokio channels and timers trusted)",
             "the simulated MPD answers each token from the case's reply table",
@@ -369,13 +458,13 @@ pub fn c04(_tier: Tier) -> Property {
         parts: vec![Box::new(RandomPart {
             name: "histories",
             rule: "as C01's scripts but biased to Change steps with 1-4 names from the 14 documented subsystems and unknown [a-z_]{1,16} names, changes while idle / while a request is in flight / inside the re-idle delay / right before an Issue with the reply on hold; the event sequence must equal the concatenation of all 'changed:' lines the simulated server wrote. non-trivial = at least one change and (a reply with >=2 names, an unknown name, a reply split across reads, a change right after an Issue, or the noidle race); lines lost exactly as known finding F-B describes are counted as excluded",
-            cases: (30_000, 3_000_000),
+            cases: (60_000, 3_000_000),
             strategy: Box::new(|_t| simgen::script(6, 4, 24).boxed()),
             check: Box::new(|s: &Script| {
                 let obs = sim::run(s);
                 judge_c04(s, &obs)
             }),
-        })],
+        }), systematic_part(judge_c04)],
         assumptions: vec!["as C01", "pending changes are reported by the simulated server at the next idle, duplicates merged (as MPD's idle flags)"],
         selftest: None,
     }
@@ -388,13 +477,13 @@ pub fn c05(_tier: Tier) -> Property {
         parts: vec![Box::new(RandomPart {
             name: "histories",
             rule: "scripts as C01/C04 (fault-free, incl. partial writes); the simulated MPD must raise no verdict (first line idle; only noidle while it waits in idle; no request or idle while reply bytes of an earlier exchange are unread; no nested/unterminated list) and at every quiescent point more than 100 ms after the last I/O with no request pending and nothing withheld it must be waiting in idle. non-trivial = noidle race, requests pending at once, a change or request inside the 100 ms window",
-            cases: (30_000, 3_000_000),
+            cases: (60_000, 3_000_000),
             strategy: Box::new(|_t| simgen::script(3, 3, 24).boxed()),
             check: Box::new(|s: &Script| {
                 let obs = sim::run(s);
                 judge_c05(s, &obs)
             }),
-        })],
+        }), systematic_part(judge_c05)],
         assumptions: vec!["the server model implements MPD's idle rules (client/Process.cxx, client/Idle.cxx): noidle outside idle is ignored without reply, anything but noidle during idle is a protocol violation"],
         selftest: None,
     }
